@@ -281,6 +281,13 @@ def check_C12(cx):
         calls = [((r.choice([0, 1]) if two else 0), r.choice(setters), r.choice([0, 1, 2, 3, 7, -1, 100]))
                  for _ in range(n)]
         hists.append(hist_for(calls, 0, 1 if two else None))
+    # undocumented values that look like documented ones after a narrowing conversion (low byte / low 16 bits 0, 1, 2) or a sign change:
+    # every setter x every such value, from each of the three documented states of the setter's dimension
+    odd = [256, 257, 258, 65536, 65537, 65538, 1 << 24, (1 << 24) + 1, -256, -255, -254, 2 ** 31 - 1, -2 ** 31, 4, 8, 16, 255]
+    for w in setters:
+        for v in odd:
+            for pre in ([], [("all", 0)], [("all", 1)], [("mov", 2), ("sib", 0)]):
+                hists.append(hist_for([(0, pw, pv) for pw, pv in pre] + [(0, w, v)]))
     ops, out = tie_api_mod_lf(cx, impl, hists, "C12 setter histories (model setters + implementation's own per-line results)")
     # The model's setters are PROVED to implement the documented table (refines_abs) and the probe
     # bytes come from the implementation's own per-line results for the model's option byte, so a
@@ -647,6 +654,15 @@ def check_C14(cx):
                      "N 0 400 cc", "O 0 %d" % p0, "A 0 %s" % cases.hexs(text), "G 0", "D 0 0 400", "F 0"]
                 hists.append(h)
                 meta.append((14, text, c, p0))
+    # programs without any instruction: the count of the call is 0 (and it is written)
+    for text in [b"", b"\n", b"   ", b"\t\n\n", b" \r\n \n", b"; only a comment", b"label:\n", b"section .text\n\n"]:
+        for c in (-1, 0, 1, 2, 8, 64):
+            for p0 in (0, 7):
+                h = ["N 0 400 cc", "O 0 %d" % p0, "C 0 %d %s 1" % (c, cases.hexs(text)), "G 0", "D 0 0 400",
+                     "C 0 %d %s 1" % (c, cases.hexs(text)), "G 0", "A 0 %s" % cases.hexs(b"nop"), "G 0", "F 0",
+                     "N 0 400 cc", "O 0 %d" % p0, "A 0 %s" % cases.hexs(text), "G 0", "D 0 0 400", "F 0"]
+                hists.append(h)
+                meta.append((14, text, c, p0))
     for _ in range(300 if cx.tier == "quick" else 4000):
         c = r.choice([2, 3, 4, 5, 7, 8, 16, 32, 64, 100, 4096])
         p0 = r.randrange(0, 100)
@@ -949,6 +965,19 @@ def check_C16(cx):
         smart_mov = is_mov_r64_imm(l) and (opt & 2)
         for _ in range(nstyles):
             lines.append((opt, l, cases.restyle(l, r, numbers=not smart_mov)))
+    # blanks do not count, however many: indentation, column alignment and trailing blanks far beyond the 100 character line buffer
+    for opt, l in corpus[::7 if cx.tier == "quick" else 1]:
+        for pad in (96, 97, 98, 120, 300):
+            lines.append((opt, l, " " * pad + l))
+            lines.append((opt, l, "\t" * pad + l))
+        if "," in l:
+            lines.append((opt, l, l.replace(",", "," + " " * 110, 1)))
+            lines.append((opt, l, l.replace(",", " " * 60 + "," + "\t" * 60, 1)))
+        if " " in l:
+            k = l.index(" ")
+            lines.append((opt, l, l[:k] + " " * 150 + l[k:]))
+        lines.append((opt, l, l + " " * 250))
+        lines.append((opt, l, " " * 99 + l + " " * 99 + "; " + "c" * 200))
     ops, out = tie_lines(cx, impl, [(o, s.encode("latin1")) for o, _, s in lines], "C16 styled lines (whole per-line pipeline)")
     nviol, ndiff = 0, 0
     for (opt, canon, styled), o in zip(lines, out):
@@ -1740,7 +1769,8 @@ ENC_THEOREMS = {
     "C01": ["AL.Properties.Sweep.c01_sweep", "AL.Properties.C01.nop_table_decodes", "AL.Properties.C01.no_operand_lines"],
     "C02": ["AL.Properties.Sweep.c02_sweep", "AL.Properties.C02.disp_field_reads_back", "AL.Spec.X86.leVal_assembleConst", "AL.Spec.X86.toSigned_roundtrip",
             "AL.Properties.C11.swap_same_address", "AL.Properties.C11.nobase_scale2_same_address", "AL.Properties.C11.nobase_scale1_same_address"],
-    "C03": ["AL.Properties.Sweep.c03_sweep", "AL.Properties.C03.written_number_value", "AL.Properties.C03.imm_field_reads_back",
+    "C03": ["AL.Properties.Sweep.c03_sweep", "AL.Properties.C03.written_number_value", "AL.Properties.C03.imm_field_reads_back", "AL.Properties.C03.imm_field_dword", "AL.Properties.C03.imm_field_qword",
+            "AL.Lemmas.assembleImm_dword", "AL.Lemmas.assembleImm_qword", "AL.Lemmas.assembleImm_reduced", "AL.Lemmas.assembleConst_pad",
             "AL.Lemmas.strtoul_dec", "AL.Lemmas.strtoul_hex", "AL.Lemmas.strtoul_neg_dec", "AL.Lemmas.strtoul_neg_hex"],
     "C04": ["AL.Properties.Sweep.c04_sweep", "AL.Properties.C04.vex2_is_vex3"],
     "C05": ["AL.Properties.Sweep.c05_sweep", "AL.Properties.C05.rel_field_reads_back", "AL.Properties.C05.written_displacement"],
@@ -2056,15 +2086,39 @@ def check_C18(cx):
                                       "what": "data race reported on library state" if races else "a thread's results differ from running alone"})
             elif m:
                 cx.count(int(m.group(1)) * n, [])
+    # deterministic interleavings (hook ALVERIF_INDEX_STORE): thread A makes the process's first create and is held after its k-th
+    # index table store while thread B runs a complete job; every k, one process each (what happened before the first create of a
+    # process cannot be re-entered later)
+    impl = build_impl(cx, name="thrdrv", flavour="tsan")
+    nsched = 0
+    for k in range(1, 26):
+        env = dict(os.environ, TSAN_OPTIONS="halt_on_error=0 exitcode=66 report_signal_unsafe=0")
+        p = subprocess.run([impl, "sched", str(k)], stdout=subprocess.PIPE, stderr=subprocess.PIPE, env=env, timeout=600)
+        out = p.stdout.decode("latin1").strip().split("\n")
+        err = p.stderr.decode("latin1")
+        races = err.count("WARNING: ThreadSanitizer")
+        m = re.search(r"held=(\d) stores_by_A=\d+ steps=(\d+) mismatches=(\d+)", out[-1] if out else "")
+        nsched += 1
+        if p.returncode != 0 or races or not m or m.group(3) != "0":
+            cx.violations.append({"kind": "interleaving", "schedule": "thread A held after %d index table stores of the process's first "
+                                  "asm_create_instance while thread B creates, assembles and destroys its own instances" % k,
+                                  "replay_cmd": "thrdrv sched %d" % k, "exit": p.returncode, "tsan_reports": races, "result": out[-4:],
+                                  "what": "a thread using only its own instances does not get the results it gets when running alone"})
+            break
+        cx.count(int(m.group(2)) * 2, [])
+    cx.oblige("hook ALVERIF_INDEX_STORE present: thread A was held inside its create in the scheduled runs", nsched > 0 and bool(m) and m.group(1) == "1",
+              "the hook did not fire (source_commits of MANIFEST.hooks)")
     cx.nontrivial.update((r[0], r[1], r[2]) for r in runs)
+    cx.nontrivial.update(("sched", k) for k in range(1, nsched + 1))
     cx.cov["samples"] = runs[:4]
-    cx.dist = {"runs": runs, "globals": sorted(glob)[:8]}
+    cx.dist = {"runs": runs, "globals": sorted(glob)[:8], "scheduled_interleavings": nsched}
     cx.assumptions.append("the C11 memory model for _Atomic int accesses (sequentially consistent) and libc's internal locking are assumed; races on "
                           "non-atomic objects are observed by ThreadSanitizer over the schedules that occurred, not proved absent")
     return finish(cx, "2..64 threads each looping create (internal and caller buffer) / all three option setters / assemble in plain, fitting and "
                   "counting mode over 8 programs (valid, rejected, all instruction classes) / destroy on private instances, under ThreadSanitizer and "
                   "at -O2: no race report, and every thread's return values, offsets, counts and code hashes equal the single-threaded reference; "
-                  "distinct = distinct (build, threads, rounds) runs")
+                  "25 deterministic interleavings through the guarded hook (a thread held after k stores of the process's first create while "
+                  "another runs a complete job); distinct = distinct (build, threads, rounds) runs and schedules")
 
 
 
@@ -2150,7 +2204,8 @@ def check_C19(cx):
     prog = b"mov rax, 0x1122334455667788\nvaddpd ymm1, ymm2, [rax+r9*8+16]\npush r12\nret\n"
     outp = os.path.join(tmp, "out.bin")
     for off in list(range(0, 30)) + [-1, -5]:
-        h = ["N 0 300 cc", "A 0 %s" % cases.hexs(prog), "O 0 %d" % off, "W 0 %s ok" % outp, "D 0 0 %d" % max(off, 0), "F 0"]
+        h = ["N 0 300 cc", "A 0 %s" % cases.hexs(prog), "O 0 %d" % off, "W 0 %s %s" % (outp, "stale" if off % 2 else "ok"),
+             "D 0 0 %d" % max(off, 0), "F 0"]
         hists.append(h)
         meta.append(("bin", off))
     hists.append(["N 0 300 cc", "A 0 %s" % cases.hexs(prog), "W 0 %s bad" % os.path.join(tmp, "no", "such", "dir", "o.bin"), "F 0"])
